@@ -70,7 +70,7 @@ func (x *Exec) runBound(fn *ssa.Function, bind []Value, args []Value, st *State,
 		unsupported("closure bindings mismatch for %s", fn.Name())
 	}
 	if len(bind) == 0 {
-		return x.run(fn, args, &State{h: st.h}, pc)
+		return x.run(fn, args, &State{h: st.h, facts: st.facts}, pc)
 	}
 	// free variables are looked up through vals: pass them as extra params
 	x.freeBind = append(x.freeBind, map[ssa.Value]Value{})
@@ -78,7 +78,7 @@ func (x *Exec) runBound(fn *ssa.Function, bind []Value, args []Value, st *State,
 		x.freeBind[len(x.freeBind)-1][fv] = bind[i]
 	}
 	defer func() { x.freeBind = x.freeBind[:len(x.freeBind)-1] }()
-	return x.run(fn, args, &State{h: st.h}, pc)
+	return x.run(fn, args, &State{h: st.h, facts: st.facts}, pc)
 }
 
 // ------------------------------------------------------------ interface rule
@@ -143,7 +143,7 @@ func (x *Exec) invoke(recv *IfaceV, m *types.Func, args []Value, st *State, pc *
 				x.ghostSet(st, "Rd", x.bump(x.ghostGet(st, "Rd"), a))
 				mem := x.ghostGet(st, "Mem")
 				x.noteSelect(mem, a)
-				return x.b.Select(mem, a)
+				return x.sel(mem, a)
 			}
 		case "Set":
 			if len(args) == 2 {
@@ -158,7 +158,7 @@ func (x *Exec) invoke(recv *IfaceV, m *types.Func, args []Value, st *State, pc *
 				x.ghostSet(st, "PIn", x.bump(x.ghostGet(st, "PIn"), p))
 				iv := x.ghostGet(st, "InVal")
 				x.noteSelect(iv, p)
-				return x.b.Select(iv, p)
+				return x.sel(iv, p)
 			}
 		case "Out":
 			if len(args) == 2 {
